@@ -321,6 +321,123 @@ fn sample_kind(j: &Judged) -> &'static str {
     }
 }
 
+/// Wall-time bound after which a run that has not returned counts as a hang (C07: "the parsing entry
+/// points return a value or an error"). Runs take micro- to milliseconds; `PARSESIM_HANG_SECS` overrides.
+fn hang_limit() -> std::time::Duration {
+    std::time::Duration::from_secs(std::env::var("PARSESIM_HANG_SECS").ok().and_then(|s| s.parse().ok()).unwrap_or(90))
+}
+
+fn step_at(seed: u64, k: u64, mode: &'static str, sweep_mode: bool, sweep_cases: &[Scenario]) -> Step {
+    if sweep_mode {
+        Step::One(sweep_cases[k as usize].clone())
+    } else {
+        match group_of(seed, k, mode) {
+            Some((scs, schedule)) => Step::Group(scs, schedule),
+            None => Step::One(gen::generate(run_seed(seed, k), mode, schema::recvs())),
+        }
+    }
+}
+
+/// Run `i` never came back. Its threads cannot be recovered, so the summary is printed from here and
+/// the process ends: for C07 (and C14's totality rule) a violation whose replay carries the session
+/// prefix as history; for the other properties a harness error (C07 is the check that decides it).
+fn report_hang_and_exit(prop: &str, mode: &'static str, seed: u64, start: u64, i: u64, sweep_mode: bool, sweep_cases: &[Scenario]) -> ! {
+    let lo = start + ((i - start) / SESSION) * SESSION;
+    let history: Vec<Step> = (lo..i).map(|k| step_at(seed, k, mode, sweep_mode, sweep_cases)).collect();
+    let last = step_at(seed, i, mode, sweep_mode, sweep_cases);
+    let (sc, group, schedule) = match &last {
+        Step::One(m) => (m.clone(), None, None),
+        Step::Group(ms, s) => (ms[0].clone(), Some(ms.clone()), Some(s.clone())),
+    };
+    let idx = if sweep_mode { format!("sweep{}", i) } else { i.to_string() };
+    let rule = match prop {
+        "C07" => Some("C07.R6"),
+        "C14" => Some("C14.R5"),
+        _ => None,
+    };
+    let secs = hang_limit().as_secs();
+    let mut doc = sc.doc.clone();
+    let source = input::render(&mut doc);
+    let out = match rule {
+        Some(rule) => {
+            let rp = Replay {
+                format: 1,
+                property: prop.to_string(),
+                rule: rule.into(),
+                sim: "parse".into(),
+                verif_seed: Some(seed),
+                run_index: Some(idx),
+                scenario: sc.clone(),
+                input_source: source,
+                expected: "the parse returns (a value, an error, or the injected panic reaching the caller)".into(),
+                observed: format!("did not return within {} s of wall time (runs take milliseconds): a hang or a deadlock", secs),
+                detail: "the history is the whole session prefix, unminimised (a hung process cannot minimise); the replay runs it under the same watchdog".into(),
+                observed_digest: String::new(),
+                signature: json!({"rule": rule, "receiver": sc.receiver}),
+                minimised: json!({"history_from": history.len(), "history_to": history.len(), "steps": 0}),
+                group,
+                schedule,
+                history: Some(history),
+            };
+            json!({"sim": "parse", "prop": prop, "mode": if sweep_mode { "sweep" } else { "batch" }, "gen_mode": mode, "seed": seed, "start": start, "count": 0, "runs": 0,
+                   "completed": false, "wall_s": 0.0, "counters": {}, "distinct": {}, "failures": 1, "harness_errors": [], "replays": [rp], "samples": [], "hang": true})
+        }
+        None => json!({"sim": "parse", "prop": prop, "mode": if sweep_mode { "sweep" } else { "batch" }, "gen_mode": mode, "seed": seed, "start": start, "count": 0, "runs": 0,
+                   "completed": false, "wall_s": 0.0, "counters": {}, "distinct": {}, "failures": 0,
+                   "harness_errors": [{"index": i, "error": format!("run {} did not return within {} s of wall time: a hang in the code under test (property C07 decides it; this check cannot continue)", i, secs)}],
+                   "replays": [], "samples": [], "hang": true}),
+    };
+    println!("{}", out);
+    use std::io::Write as _;
+    let _ = std::io::stdout().flush();
+    std::process::exit(if rule.is_some() { 1 } else { 2 })
+}
+
+/// A run of a single-threaded phase never came back (see `run::TRACK`).
+fn report_tracked_hang_and_exit(prop: &str, scenario_json: &str, sweep_mode: bool) -> ! {
+    let secs = hang_limit().as_secs();
+    let rule = match prop {
+        "C07" => Some("C07.R6"),
+        "C14" => Some("C14.R5"),
+        _ => None,
+    };
+    let sc: Option<Scenario> = serde_json::from_str(scenario_json).ok();
+    let out = match (rule, sc) {
+        (Some(rule), Some(sc)) => {
+            let mut doc = sc.doc.clone();
+            let source = input::render(&mut doc);
+            let rp = Replay {
+                format: 1,
+                property: prop.to_string(),
+                rule: rule.into(),
+                sim: "parse".into(),
+                verif_seed: None,
+                run_index: Some(format!("{}-{}", if sweep_mode { "sweepbase" } else { "phase" }, sc.receiver)),
+                scenario: sc.clone(),
+                input_source: source,
+                expected: "the parse returns (a value, an error, or the injected panic reaching the caller)".into(),
+                observed: format!("did not return within {} s of wall time (runs take milliseconds): a hang or a deadlock", secs),
+                detail: "met while enumerating sweep cases or building replays (single-threaded phase)".into(),
+                observed_digest: String::new(),
+                signature: json!({"rule": rule, "receiver": sc.receiver}),
+                minimised: json!({"steps": 0}),
+                group: None,
+                schedule: None,
+                history: None,
+            };
+            json!({"sim": "parse", "prop": prop, "mode": if sweep_mode { "sweep" } else { "batch" }, "runs": 0, "completed": false, "wall_s": 0.0, "counters": {}, "distinct": {},
+                   "failures": 1, "harness_errors": [], "replays": [rp], "samples": [], "hang": true})
+        }
+        _ => json!({"sim": "parse", "prop": prop, "mode": if sweep_mode { "sweep" } else { "batch" }, "runs": 0, "completed": false, "wall_s": 0.0, "counters": {}, "distinct": {}, "failures": 0,
+                   "harness_errors": [{"index": 0, "error": format!("a run did not return within {} s of wall time: a hang in the code under test (property C07 decides it; this check cannot continue)", secs)}],
+                   "replays": [], "samples": [], "hang": true}),
+    };
+    println!("{}", out);
+    use std::io::Write as _;
+    let _ = std::io::stdout().flush();
+    std::process::exit(if rule.is_some() { 1 } else { 2 })
+}
+
 fn cmd_batch(args: &[String], sweep_mode: bool) -> i32 {
     run::install_panic_hook();
     let prop = arg(args, "--prop").unwrap_or("C02").to_string();
@@ -331,18 +448,53 @@ fn cmd_batch(args: &[String], sweep_mode: bool) -> i32 {
     let max_failures: usize = arg(args, "--max-failures").map(|s| s.parse().expect("--max-failures")).unwrap_or(3);
     let want_digests = arg(args, "--digests").map(|s| s.to_string());
     let recvs = schema::recvs();
+    // single-threaded phases (sweep case enumeration, replay creation) run under the tracked watchdog
+    run::TRACK.store(true, Ordering::Relaxed);
+    {
+        let prop = prop.clone();
+        std::thread::spawn(move || loop {
+            std::thread::sleep(std::time::Duration::from_millis(500));
+            let stuck = match &*run::CURRENT.lock().unwrap_or_else(|e| e.into_inner()) {
+                Some((sc, since)) if since.elapsed() > hang_limit() => Some(sc.clone()),
+                _ => None,
+            };
+            if let Some(sc) = stuck {
+                report_tracked_hang_and_exit(&prop, &sc, sweep_mode);
+            }
+        });
+    }
     if gen::receiver_names(mode).is_empty() {
         eprintln!("HARNESS-ERROR: no receiver of mode {} is left in this build (PARSESIM_SKIP={})", mode, skip_table::REQUESTED);
         return 2;
     }
-    let sweep_cases: Vec<Scenario> = if sweep_mode { sweep::cases(mode, recvs) } else { Vec::new() };
+    let sweep_cases: std::sync::Arc<Vec<Scenario>> = std::sync::Arc::new(if sweep_mode { sweep::cases(mode, recvs) } else { Vec::new() });
     let count: u64 = if sweep_mode { sweep_cases.len() as u64 } else { arg(args, "--count").map(|s| s.parse().expect("--count")).unwrap_or(1000) };
     let progress = arg(args, "--progress").map(|p| std::fs::OpenOptions::new().create(true).write(true).truncate(true).open(p).expect("progress file"));
+    // hang watchdog: a run that does not come back within HANG of wall time never will
+    let epoch = std::time::Instant::now();
+    let beats: std::sync::Arc<Vec<std::sync::atomic::AtomicU64>> = std::sync::Arc::new((0..2 * workers.max(1)).map(|_| std::sync::atomic::AtomicU64::new(0)).collect());
+    {
+        let beats = beats.clone();
+        let prop = prop.clone();
+        let sweep_cases = sweep_cases.clone();
+        std::thread::spawn(move || loop {
+            std::thread::sleep(std::time::Duration::from_millis(500));
+            let now = epoch.elapsed().as_millis() as u64;
+            for slot in 0..beats.len() / 2 {
+                let idx = beats[2 * slot].load(Ordering::Acquire);
+                let since = beats[2 * slot + 1].load(Ordering::Relaxed);
+                if idx != 0 && now.saturating_sub(since) > hang_limit().as_millis() as u64 && beats[2 * slot].load(Ordering::Acquire) == idx {
+                    report_hang_and_exit(&prop, mode, seed, start, idx - 1, sweep_mode, &sweep_cases);
+                }
+            }
+        });
+    }
     // one session = one chunk = one fresh worker thread
-    let cfg = PoolCfg { workers, stack_bytes: 64 << 20, retire_after: SESSION, chunk: SESSION, progress };
+    let cfg = PoolCfg { workers, stack_bytes: 64 << 20, retire_after: SESSION, chunk: SESSION, progress, beats: Some(beats), epoch };
     let stop = AtomicBool::new(false);
     let nfail = Mutex::new(0usize);
     let t0 = std::time::Instant::now();
+    run::TRACK.store(false, Ordering::Relaxed);
     let accs = run_parallel(
         start,
         count,
@@ -421,6 +573,7 @@ fn cmd_batch(args: &[String], sweep_mode: bool) -> i32 {
             }
         },
     );
+    run::TRACK.store(true, Ordering::Relaxed);
     let mut stats = Stats::new();
     let mut failures = Vec::new();
     let mut harness = Vec::new();
@@ -570,6 +723,24 @@ fn cmd_batch(args: &[String], sweep_mode: bool) -> i32 {
 }
 
 fn cmd_replay(path: &str) -> i32 {
+    // under the same watchdog as the batch: a replay that hangs is a replay that shows the hang
+    let (tx, rx) = std::sync::mpsc::channel();
+    let p = path.to_string();
+    std::thread::Builder::new().stack_size(64 << 20).spawn(move || { let _ = tx.send(cmd_replay_inner(&p)); }).expect("spawn");
+    match rx.recv_timeout(hang_limit()) {
+        Ok(code) => code,
+        Err(_) => {
+            let prop = std::fs::read_to_string(path).ok().and_then(|t| serde_json::from_str::<Replay>(&t).ok()).map(|r| r.property).unwrap_or_default();
+            println!("rule=C07.R6 did not return within {} s of wall time: a hang or a deadlock", hang_limit().as_secs());
+            println!("VIOLATION property={} replay={}", prop, path);
+            use std::io::Write as _;
+            let _ = std::io::stdout().flush();
+            std::process::exit(1)
+        }
+    }
+}
+
+fn cmd_replay_inner(path: &str) -> i32 {
     run::install_panic_hook();
     let text = std::fs::read_to_string(path).expect("replay file readable");
     let rp: Replay = serde_json::from_str(&text).expect("replay file parses");
